@@ -109,7 +109,10 @@ def build_circuit(topo, kt, orient, n, ground_mode):
     for k, ((i, j), kn) in enumerate(zip(topo, kt)):
         a, b_ = (labels[j], labels[i]) if (orient >> k) & 1 else (labels[i], labels[j])
         ckind, params = KTAB[kn](sp.P_REAL[k])
-        comps.append([ckind, sp.IDS_ASC[k], [a, b_], params])
+        # ids ascend with the listing position for even-parity orientation masks and descend for odd ones, so that listing order
+        # and alphabetical order of the sources disagree in half the cases
+        cid = sp.IDS_ASC[k] if bin(orient).count("1") % 2 == 0 else sp.IDS_ASC[len(topo) - 1 - k]
+        comps.append([ckind, cid, [a, b_], params])
     if ground_mode == "last":
         comps.append(["ground", "gnd", [labels[n - 1]], {}])
     elif ground_mode == "odd":
